@@ -57,7 +57,7 @@ BpComps == <<"fund", "rev", "pay", "delay", "htlc", "fsec">>   \* order of the B
 
 NoChan == [ph |-> "none", nh |-> 0, al |-> FALSE, v |-> "-", src |-> "-"]
 
-Init(K) == [ ch  |-> [i \in Ids(K) |-> NoChan],
+Init0(K) == [ ch  |-> [i \in Ids(K) |-> NoChan],
              hwm |-> 0,                  \* dbid high-water mark (as a rank)
              rs  |-> FALSE,              \* this process was restored from the store
              ctr |-> 0,                  \* derivations made by this process (LND basepoint index)
